@@ -92,6 +92,11 @@ def cases(draw):
     for j in range(draw(st.integers(0, 4))):
         where = draw(st.sampled_from([[]] + [list(s.path) for s in spaces]))
         extra.append(["set_ref", where, "v%d" % j, ["py", draw(st.sampled_from(PY_VALUES))], None])
+    # data with an IOSpec (written to its own file)
+    for j in range(draw(st.integers(0, 2)) if draw(st.booleans()) else 0):
+        where = draw(st.sampled_from([[]] + [list(s.path) for s in spaces]))
+        extra.append(["new_pandas", where, "pd%d" % j, draw(st.sampled_from(["data/pd%d.csv" % j, "book%d.xlsx" % j])),
+                      draw(st.sampled_from(["df", "ser"]))])
     # object-valued references to spaces, incl. relative mode inside the tree and model-level ones
     for j in range(draw(st.integers(0, 2))):
         s = draw(st.sampled_from(spaces))
@@ -230,8 +235,8 @@ def _run(case, out, root):
                 return out.fail("zip-dir-listing", "zip members %r vs directory files %r" % (
                     sorted(members - set(files)), sorted(set(files) - members)))
             for n in sorted(members):
-                if n.endswith(".pickle"):
-                    continue        # pickles embed object ids; compared through the loaded models
+                if n.endswith(".pickle") or n.endswith(".xlsx"):
+                    continue        # pickles embed object ids, workbooks time stamps; compared through the loaded models
                 with open(files[n], "rb") as f:
                     if z.read(n) != f.read():
                         return out.fail("zip-dir-content", "file %s differs between zip and directory" % n)
